@@ -54,3 +54,34 @@ Theorem C06_tu_verdict_on_certified_network_matrices : forall rec cfg m n M rc v
   rc = 0 /\ tu_bf m n M = true /\ (v = 2 -> TuModel.cfg_stopflags cfg = true) /\ (v <> 2 -> v = 1 /\ sub = None).
 Proof. exact TuNetProofs.judge_tu_net_sound. Qed.
 Print Assumptions C06_tu_verdict_on_certified_network_matrices.
+
+(* ---------- the judge accepts EXACTLY the records that satisfy its specification: besides soundness (above) also completeness,
+   i.e. a record of a correct answer is never rejected (JudgeComplete2.v) ---------- *)
+From Cmr Require JudgeComplete2.
+Theorem C06_judge_network_accepts_exactly_the_specification :
+    forall (rec : list Z) (tr : bool) (m0 n0 : nat) (M0 : mat) (rc v sg : Z)
+    (cert : option (GraphModel.graph * list nat * list nat * list nat))
+    (sub : option (list nat * list nat)) (w : GraphModel.witness) (rest : list Z),
+    NetworkJudge.network_input rec = Some (tr, (m0, n0, M0), rc, v, sg, cert, sub, w, rest) ->
+    GraphModel.judge_network rec = 0%Z <-> JudgeComplete2.network_spec tr m0 n0 M0 rc v sg cert sub w.
+Proof. exact JudgeComplete2.judge_network_iff. Qed.
+Print Assumptions C06_judge_network_accepts_exactly_the_specification.
+
+(* ---------- the signed certificate checker is EQUIVALENT to the network specification (GraphComplete.v): a correct digraph /
+   forest / coforest / reversal certificate is never rejected ---------- *)
+From Cmr Require GraphComplete.
+Theorem C06_certificate_checker_is_the_specification :
+    forall (m n : nat) (M : mat) (G : GraphModel.graph) (rev forest coforest : list nat),
+    GraphModel.check_network_cert m n M G rev forest coforest = true <->
+    (exists T C : list GraphModel.edge,
+    GraphModel.graph_ok G = true /\
+    GraphModel.lookup_all (map (GraphModel.orient rev) (GraphModel.g_edges G)) forest = Some T /\
+    length T = m /\
+    GraphModel.lookup_all (map (GraphModel.orient rev) (GraphModel.g_edges G)) coforest = Some C /\
+    length C = n /\
+    NoDup (forest ++ coforest) /\
+    (forall e : GraphModel.edge,
+    In e (GraphModel.g_edges G) -> In (GraphModel.e_id e) (forest ++ coforest)) /\
+    ~ GraphProofs.has_cycle T /\ GraphProofs.network_spec m n M T C).
+Proof. exact GraphComplete.check_network_cert_iff. Qed.
+Print Assumptions C06_certificate_checker_is_the_specification.
